@@ -83,8 +83,26 @@ def check(ctx):
                "the requested (column, direction) pairs reach the key construction unchanged" if not rebind else
                f"{kwparam} is rebound before the keys are built: the requested directions/keys are rewritten",
                nontrivial=False, clause="in the requested directions")
+    # the function that builds one sort key: whatever the lexsort argument's elements are computed by -- a closure of
+    # sort, or a private method / module function it calls with (column name, direction)
     key = sort.nested.get("sort_key")
-    scope = [sort] + list(sort.nested.values())
+    if key is None:
+        cands = []
+        for f, c in calls_in(sort):
+            tgt = None
+            if isinstance(c.func, ast.Name) and c.func.id in sort.nested:
+                tgt = sort.nested[c.func.id]
+            elif isinstance(c.func, ast.Attribute) and isinstance(c.func.value, ast.Name) and c.func.value.id == sort.params[0]:
+                tgt = repo.functions.get(f"{DF}.{c.func.attr}")
+            elif isinstance(c.func, ast.Name):
+                tgt = repo.functions.get(f"{sort.module.name}.{c.func.id}")
+            if tgt is not None and tgt is not sort and len([p_ for p_ in tgt.params if p_ not in ("self", "cls")]) == 2 \
+                    and any(isinstance(n, ast.Return) and n.value is not None for n in body_nodes(tgt.node)):
+                cands.append(tgt)
+        if len({id(x) for x in cands}) == 1:
+            key = cands[0]
+    key_params = [p_ for p_ in key.params if p_ not in ("self", "cls")] if key is not None else []
+    scope = [sort] + list(sort.nested.values()) + ([key] if key is not None and key not in sort.nested.values() else [])
     for fn in scope:
         for f, c in calls_in(fn, False):
             d = repo.dotted(f, c.func)
@@ -104,7 +122,7 @@ def check(ctx):
     # ------------------------------------------------------------------ DIR
     if key is None:
         raise AnalysisError("anchor vanished: DataFrame.sort.sort_key")
-    dparam = key.params[1] if len(key.params) > 1 else None
+    dparam = key_params[1] if len(key_params) > 1 else None
     n_dir = 0
     if dparam:
         for n in body_nodes(key.node):
